@@ -191,6 +191,47 @@ pub fn exec(tag: i64, inp: &[i64]) -> Vec<i64> {
                 },
             }
         }
+        192 => {
+            // input shapes that serde_json values do not have: a byte string (inp[1] = 0), a u64
+            // (1), an i64 (2) handed over through serde's own value deserializers.  Whatever is
+            // accepted must survive the round trip through its own (validating) Deserialize:
+            // observation [accepted, round trip ok].
+            use serde::de::value::{BytesDeserializer, Error as VErr, I64Deserializer, U64Deserializer};
+            use serde::de::IntoDeserializer;
+            fn probe<T: serde::Serialize + serde::de::DeserializeOwned + PartialEq>(shape: i64, data: &[i64]) -> Vec<i64> {
+                let bytes: Vec<u8> = data.iter().map(|&b| b as u8).collect();
+                let r: Option<Result<T, VErr>> = std::panic::catch_unwind(|| match shape {
+                    0 => T::deserialize(BytesDeserializer::<VErr>::new(&bytes)),
+                    1 => T::deserialize(U64Deserializer::<VErr>::new(data.first().copied().unwrap_or(0) as u64)),
+                    _ => T::deserialize(I64Deserializer::<VErr>::new(data.first().copied().unwrap_or(0))),
+                })
+                .ok();
+                let _ = 0u8.into_deserializer() as serde::de::value::U8Deserializer<VErr>;
+                match r {
+                    None => vec![PANIC],
+                    Some(Err(_)) => vec![0, NONE],
+                    Some(Ok(x)) => {
+                        let back = serde_json::to_value(&x).ok().and_then(|v| serde_json::from_value::<T>(v).ok());
+                        vec![1, (back.as_ref() == Some(&x)) as i64]
+                    }
+                }
+            }
+            let (tidx, shape, data) = (inp[0], inp[1], &inp[2..]);
+            match tidx {
+                0 => probe::<U4>(shape, data),
+                1 => probe::<U7>(shape, data),
+                2 => probe::<U14>(shape, data),
+                3 => probe::<Channel>(shape, data),
+                4 => probe::<KeyNumber>(shape, data),
+                5 => probe::<ControllerNumber>(shape, data),
+                10 => probe::<ShortMessageType>(shape, data),
+                13 => probe::<TimeCodeQuarterFrame>(shape, data),
+                14 => probe::<StructuredShortMessage>(shape, data),
+                15 => probe::<RawShortMessage>(shape, data),
+                16 => probe::<ControlChange14BitMessage>(shape, data),
+                _ => probe::<ParameterNumberMessage>(shape, data),
+            }
+        }
         191 => {
             let tidx = inp[0];
             let f = &inp[1..];
@@ -540,6 +581,20 @@ pub fn gen_c19(tier: Tier, seed: u64, em: &mut Emitter) {
                       ("data_type", jstr(r.pick(&["DataEntry", "DataIncrement", "DataDecrement"])))];
         for form in struct_forms(&fields).into_iter().take(2) {
             emit(em, "pn/random", 17, form);
+        }
+    }
+    // other input shapes (serde's own value deserializers): byte strings, bare integers
+    for &t in &[0i64, 1, 2, 3, 4, 5, 10, 13, 14, 15, 16, 17] {
+        for data in [vec![], vec![0i64], vec![200], vec![144, 200, 0], vec![144, 0, 200], vec![144, 60, 100], vec![10, 0, 0],
+                     vec![255, 255, 255], vec![0, 0, 0, 0], vec![3, 40, 16, 64], vec![1, 2, 3, 4, 5, 6]] {
+            let mut inp = vec![t, 0];
+            inp.extend(data);
+            em.emit_k("other-shapes/bytes", 192, inp);
+        }
+        for v in [0i64, 15, 16, 127, 128, 255, 256, 16383, 16384, 65535, 65536, 4294967296] {
+            em.emit_k("other-shapes/u64", 192, vec![t, 1, v]);
+            em.emit_k("other-shapes/i64", 192, vec![t, 2, v]);
+            em.emit_k("other-shapes/i64", 192, vec![t, 2, -v]);
         }
     }
     for _ in 0..500 {
